@@ -781,6 +781,33 @@ def r15i(rep, F):
     rep.require_count('R15i', 'own-heuristic calls and the measure clamp', n, 2)
 
 
+def r15j(rep, F):
+    rep.rule('R15j', 'rejection sampling re-draws every random choice per attempt: in the retry loops of the direct sampler the hyperspheroid a '
+                     'candidate is drawn from (randomPhsPtr()) is chosen inside the loop, in the same iteration as the draw '
+                     '(uniformProlateHyperspheroid(phs, ...)).  A choice hoisted out of the loop is made once per call: each PHS then receives '
+                     'its full measure share of the returned samples however many of its candidates the bounds or the 1/K overlap rule '
+                     'reject, so the union of several PHSs clipped by the bounds is no longer sampled uniformly')
+    n = 0
+    for f in F.functions:
+        if f.record != PLD or not f.body:
+            continue
+        for lp in [x for x in f.walk() if x['k'] in ('WhileStmt', 'DoStmt', 'ForStmt') and x.get('body')]:
+            draws = [c for c in f.walk(lp['body']) if (c.get('callee') or '').endswith('::uniformProlateHyperspheroid')]
+            if not draws:
+                continue
+            n += 1
+            phs = key(f, args(f, draws[0])[0])
+            inside = [c for c in f.walk(lp['body']) if (c.get('callee') or '').endswith('::randomPhsPtr')]
+            decl_in = any(x['k'] == 'DeclStmt' and any('%s#%d' % (d['name'], d['did']) == phs for d in x.get('decls', [])) for x in f.walk(lp['body'])) or \
+                any(x['k'] in ('BinaryOperator', 'CXXOperatorCallExpr') and (x.get('op') == '=' or x.get('oop') == '=') and key(f, x['ch'][0]) == phs
+                    for x in f.walk(lp['body']))
+            ok = bool(inside) and decl_in
+            rep.add('R15j', f.name, 'choice-redrawn-per-attempt', ok, f.where(lp),
+                    'the hyperspheroid is chosen in the iteration that draws from it' if ok else
+                    'the hyperspheroid %s is chosen outside the retry loop: every attempt of one call draws from the same PHS' % re.sub(r'#\d+', '', phs or '?'))
+    rep.require_count('R15j', 'retry loops that draw from a hyperspheroid', n, 1)
+
+
 def run(rep):
     F = facts.load_units(UNITS)
     rep.units.update(UNITS)
@@ -795,6 +822,7 @@ def run(rep):
     r15g(rep, F)
     r15h(rep, F)
     r15i(rep, F)
+    r15j(rep, F)
     rep.undecided('R15x', PHS + '::updateRotation', 'rotation', 'that the SVD solution of the Wahba problem is a rotation taking the first axis '
                   'to the focal axis is linear algebra; not decided')
     rep.undecided('R15x', 'ompl::RNG::uniformProlateHyperspheroid', 'uniformity', 'uniform density over the hyperspheroid is a statement about '
